@@ -3,6 +3,18 @@
 import json, sys
 pid = sys.argv[1]
 n = sys.argv[2] if len(sys.argv) > 2 else "3"
+start = int(sys.argv[3]) if len(sys.argv) > 3 else 1
+last = start + int(n) - 1
+import glob, os
+avoid = []
+for m in sorted(glob.glob('/verif/seeded/%s-m*/meta.json' % pid)):
+    try:
+        avoid.append("  - " + json.load(open(m)).get('summary', '')[:160].replace("\n", " "))
+    except Exception:
+        pass
+avoid_txt = ""
+if avoid and start > 1:
+    avoid_txt = "\nEarlier rounds already seeded the following changes; do NOT repeat them and stay away from the same functions where you can - look for other files, other API forms, other widths, other mechanisms:\n" + "\n".join(avoid) + "\n"
 p = [json.loads(l) for l in open('/verif/properties.jsonl') if json.loads(l)['id'] == pid][0]
 print(f"""You are helping to evaluate a verification tool by seeding realistic bugs (mutation testing). You have your own scratch git worktree of the Rust crate RustCrypto/crypto-bigint at /tmp/mut/{pid} (a detached checkout; work ONLY inside it and in /tmp/mut/{pid}-out; never touch /repo or /verif, and do not read anything under /verif). The sandbox has no network; always pass --offline to cargo.
 
@@ -18,7 +30,8 @@ Your task: produce {n} DIFFERENT, independent source changes to the crate (each 
   (c) is NOT exposed by ordinary use: it must need something specific to manifest — an unusual input (a particular limb pattern, carry chain, boundary width or precision, rare algorithm path such as a correction step), a particular width/feature combination (e.g. only BoxedUint with alloc feature, only one limb count, only one of the many API forms such as an operator impl, trait impl, `_vartime` twin or assigning form), a multi-step sequence of operations, or two cooperating sites that each look fine alone. Think like a subtle real-world regression (wrong mask, off-by-one in a loop bound or threshold, dropped correction step, swapped operand in a rarely taken branch, wrong constant for one width, missing carry propagation into the top limb, `<` vs `<=`), not a blatant stub.
 Make the changes as different from each other as you can (different files / functions / API forms / failure mechanisms).
 
-For each change k = 1..{n} write into /tmp/mut/{pid}-out/:
+{avoid_txt}
+For each change k = {start}..{last} write into /tmp/mut/{pid}-out/:
   - m<k>.diff   : the patch (output of `git diff` in the worktree against the pristine checkout, applying cleanly with `git apply` to a pristine checkout),
   - m<k>_demo.rs : a small demonstration written as a Rust integration test file (to be dropped into tests/ of the crate; use only the crate's public API and, if needed, features `alloc`/`rand_core` etc. — say which features) containing at least one #[test] that FAILS with the change applied and PASSES on the pristine code. Verify both facts yourself by actually running it (copy it to tests/, run `cargo test --offline --test <name> [--features ...]`, then remove it again from the worktree so that it is not part of the diff).
   - m<k>.json   : {{"property": "{pid}", "summary": "<one sentence: what was changed>", "needs": "<what specific input/sequence/width/feature is needed for the bug to manifest>", "features": "<cargo features needed for the demo, or empty>", "ran": "<the commands you ran and their outcome>"}}
